@@ -17,6 +17,7 @@ import (
 	"verifharness/core"
 	"verifharness/gen"
 	"verifharness/model"
+	"verifharness/types"
 )
 
 // C12: proto-compatible mode emits standard protobuf and default mode can read it.
@@ -543,11 +544,102 @@ func usesSwitched(t reflect.Type, seen map[reflect.Type]bool) (ldSlice, tim, pro
 	return
 }
 
+// c12PtrPtrSlices: repeated fields whose elements are pointers to pointers. An element keeps its
+// place in the repeated field whatever its pointers hold (nil outer, nil inner: an empty frame, read
+// back as the zero value); the elements that are fully there come back at their positions, and a
+// default-mode reader sees the same (round 12: k12).
+func c12PtrPtrSlices(c *core.Ctx, idx int, protoCfg, defCfg model.Cfg) {
+	rec := c.Rec
+	r := c.Rand(idx)
+	T := reflect.TypeOf
+	pp, dp := instNew(protoCfg), instNew(defCfg)
+	ptCfg := defCfg
+	ptCfg.ProtoTime = true // a reader without ProtoCompatibleArrays that agrees with the writer about times
+	pt := instNew(ptCfg)
+	for _, el := range []reflect.Type{T(""), T(types.Leaf{}), model.TimeT, T([]byte(nil))} {
+		ppt := reflect.PointerTo(reflect.PointerTo(el))
+		for _, tagged := range []bool{false, true} {
+			tag := `plenc:"2"`
+			p, name := pp, "protoArrays+protoTime"
+			if tagged {
+				tag, p, name = `plenc:"2,proto"`, dp, "default, proto tag"
+			}
+			ht := reflect.StructOf([]reflect.StructField{{Name: "A", Type: T(int8(0)), Tag: `plenc:"1"`}, {Name: "S", Type: reflect.SliceOf(ppt), Tag: reflect.StructTag(tag)}, {Name: "Z", Type: T(""), Tag: `plenc:"3"`}})
+			n := 1 + r.IntN(6)
+			sl := reflect.MakeSlice(reflect.SliceOf(ppt), n, n)
+			full := make([]bool, n)
+			for i := 0; i < n; i++ {
+				switch r.IntN(3) {
+				case 0: // nil outer
+				case 1: // outer set, inner nil
+					sl.Index(i).Set(reflect.New(ppt.Elem()))
+				default:
+					inner := reflect.New(el)
+					inner.Elem().Set((&gen.VG{R: r, C: protoCfg, Budget: 10}).Value(el, ""))
+					outer := reflect.New(ppt.Elem())
+					outer.Elem().Set(inner)
+					sl.Index(i).Set(outer)
+					full[i] = true
+				}
+			}
+			v := reflect.New(ht)
+			v.Elem().Field(0).SetInt(5)
+			v.Elem().Field(1).Set(sl)
+			v.Elem().Field(2).SetString("z")
+			data, err, pn := marshal(p, nil, v.Interface())
+			rec.Eval(1)
+			desc := fmt.Sprintf("[%s]\n  type %s\n  value %s\n  bytes %s", name, typeString(ht), model.Show(v.Elem()), hexHead(data))
+			if err != nil || pn != "" {
+				rec.Violation("round-trip", fmt.Sprintf("Marshal of a repeated field of pointers to pointers: %v %s %s", err, trunc1(pn), desc), nil)
+				return
+			}
+			readers := []*plenc.Plenc{pp, pt}
+			if tagged {
+				readers = []*plenc.Plenc{dp}
+			}
+			for _, rd := range readers {
+				out := reflect.New(ht)
+				if err, pn := unmarshal(rd, data, out.Interface()); err != nil || pn != "" {
+					rec.Violation("round-trip", fmt.Sprintf("Unmarshal of a repeated field of pointers to pointers: %v %s %s", err, trunc1(pn), desc), nil)
+					return
+				}
+				got := out.Elem().Field(1)
+				if got.Len() != n || out.Elem().Field(2).String() != "z" || out.Elem().Field(0).Int() != 5 {
+					rec.Violation("round-trip", fmt.Sprintf("a repeated field of %d pointers to pointers reads back with %d elements (neighbours %d, %q) %s", n, got.Len(), out.Elem().Field(0).Int(), out.Elem().Field(2).String(), desc), nil)
+					return
+				}
+				for i := 0; i < n; i++ {
+					if !full[i] {
+						continue
+					}
+					g := got.Index(i)
+					if g.IsNil() || g.Elem().IsNil() {
+						rec.Violation("round-trip", fmt.Sprintf("element %d of a repeated field of pointers to pointers was fully there and reads back nil %s", i, desc), nil)
+						return
+					}
+					if d := model.Diff(protoCfg.Normalise(sl.Index(i).Elem().Elem(), "", false), g.Elem().Elem(), fmt.Sprintf("$.S[%d]**", i)); d != "" {
+						rec.Violation("round-trip", fmt.Sprintf("a repeated field of pointers to pointers: %s %s", d, desc), nil)
+						return
+					}
+				}
+			}
+			rec.Count("ptrptr_repeated_fields", 1)
+		}
+	}
+	rec.NonTrivial(core.Hash64("ptrptr", fmt.Sprint(idx)))
+}
+
 func c12Case(c *core.Ctx, idx int) {
 	rec := c.Rec
 	cfgs := instCfgs()
 	protoCfg := cfgs[3]
 	protoCfg.Null, protoCfg.JSONAny = false, false
+	if idx%31 == 17 {
+		dc := cfgs[0]
+		dc.Null, dc.JSONAny = false, false
+		c12PtrPtrSlices(c, idx, protoCfg, dc)
+		return
+	}
 	if idx%41 == 13 {
 		// containers whose entry counts sit on the edges of the 1- and 2-byte varints, in proto mode
 		countedContainers(c, idx, protoCfg, instNew(protoCfg))
@@ -825,7 +917,7 @@ func init() {
 	core.Register(&core.Prop{
 		ID:        "C12",
 		Technique: "proto-mode output of the real Marshal parsed by protobuf-go (dynamicpb with a proto2 descriptor generated from the Go type) and by the model's strict walker; protobuf-go's own serialisation decoded by plenc; default-mode decode of the repeated-field form; four-configuration metamorphic comparison",
-		Rule: "generated struct types with every map field tagged proto (indexes legal as protobuf field numbers in 3 of 4 cases) x boundary-biased values, ProtoCompatibleArrays+ProtoCompatibleTime instance. Per value: strict walk (exact lengths, wire types 0/1/2/5 only), byte comparison with the documented proto-mode encoding, round trip, and - for types expressible as a protobuf schema (sint64/uint64/float/double/bool/bytes, nested messages, packed and repeated fields, key=1/value=2 entry messages, Timestamp{int64 seconds=1; int32 nanos=2}) - parse by protobuf-go with zero unknown fields and equal values/presence, then protobuf-go's serialisation (number order) read back by plenc; " +
+		Rule: "every 31st case: repeated fields (ProtoCompatibleArrays, proto tag) of pointers to pointers to strings, structs, times and byte slices with nil outer and nil inner pointers among the elements: every element keeps its place, the full ones their values, for the proto-mode and the default-mode reader. generated struct types with every map field tagged proto (indexes legal as protobuf field numbers in 3 of 4 cases) x boundary-biased values, ProtoCompatibleArrays+ProtoCompatibleTime instance. Per value: strict walk (exact lengths, wire types 0/1/2/5 only), byte comparison with the documented proto-mode encoding, round trip, and - for types expressible as a protobuf schema (sint64/uint64/float/double/bool/bytes, nested messages, packed and repeated fields, key=1/value=2 entry messages, Timestamp{int64 seconds=1; int32 nanos=2}) - parse by protobuf-go with zero unknown fields and equal values/presence, then protobuf-go's serialisation (number order) read back by plenc; " +
 			"every decode repeated into a recycled target (slices cut to [:0], other fields zeroed); every third value through long-lived instances; arrays-only output read by a default instance; encodings under the four configurations compared for types that a switch does not govern. distinct = (type, value-shape) hashes",
 		Assume: []string{"google.golang.org/protobuf v1.26.0 as the standard implementation", "null.* and JSON-any fields, slices of slices and pointers to slices have no protobuf schema: they are checked by the walker and the model only"},
 		Plan: func(tier string) []core.Lane {
